@@ -1,7 +1,193 @@
 import A2Verif.Model.Hex
-/-! driver family `c07` (stub until the family is built) -/
-namespace A2Verif.Drv.C07
+import A2Verif.Model.AddrMap
+/-!
+driver family `c07`: address maps of the container formats (`A2Verif.Model.AddrMap`).
 
-def handle (_toks : List String) : String := "bad-request"
+Block address tokens `<blk>`: `D13 t s` | `DO t s` | `PO b` | `CPM b bsh off` | `FAT sec1 secs`.
+Kind tokens `<kind>`: `dos32` | `dos33` | `a400` | `a800` | `other`, or `L:<NAME>` = the `TrackLayout` const of names.rs.
+
+* `lsecs <spt> <blk>`                 → `Block::get_lsecs`            `ok t.s,t.s,…`
+* `tsprodos <kind> <b>`               → `ts_from_prodos_block`        `ok t.s,t.s`
+* `blkfromts <t> <s>`                 → `prodos_block_from_ts`        `ok block.offset`
+* `cpmblk <ssh> <heads> <t.s,…>`      → `cpm_blocking`                `ok c.h.s,…`
+* `fatblk <heads> <t.s,…>`            → `fat_blocking`                `ok c.h.s,…`
+* `flat <do|po|d13> <blk>`            → pieces as byte ranges of `to_bytes()`   `ok off.len,…`
+* `pieces <do|d13|nib|img|imd|td0> <kind> <blk>` → pieces as physical sectors, i.e. where
+  `read_sector(c,h,s)` shows the data: `ok c.h.s.off.len,…`
+* `sector <do|d13|img> <kind> <c> <h> <s>` → byte offset of a physical sector in `to_bytes()` `ok off.len`
+* `sector <nib|imd|td0> <kind> <c> <h> <s>` → `ok len` if the sector exists
+Every answer is `ok …`, `err` or `panic`.
+-/
+namespace A2Verif.Drv.C07
+open A2Verif.Model.AddrMap
+open A2Verif.Gen.C07 (LayoutName)
+open A2Verif.Model.AddrMap.Out (ok err)
+
+def dots (xs : List Nat) : String := ".".intercalate (xs.map toString)
+
+def render {α : Type} (f : α → String) : Out α → String
+  | ok a => "ok " ++ f a
+  | err => "err"
+  | .panic => "panic"
+
+def commas (xs : List String) : String := if xs.isEmpty then "-" else ",".intercalate xs
+
+def pairs (xs : List (Nat × Nat)) : String := commas (xs.map fun (a, b) => dots [a, b])
+def triples (xs : List (Nat × Nat × Nat)) : String := commas (xs.map fun (a, b, c) => dots [a, b, c])
+
+def parseBlock : List String → Option Block
+  | ["D13", t, s] => do pure (.d13 (← t.toNat?) (← s.toNat?))
+  | ["DO", t, s] => do pure (.dos (← t.toNat?) (← s.toNat?))
+  | ["PO", b] => do pure (.po (← b.toNat?))
+  | ["CPM", b, bsh, off] => do pure (.cpm (← b.toNat?) (← bsh.toNat?) (← off.toNat?))
+  | ["FAT", a, n] => do pure (.fat (← a.toNat?) (← n.toNat?))
+  | _ => none
+
+def parseAKind : String → Option AKind
+  | "dos32" => some .dos32
+  | "dos33" => some .dos33
+  | "a400" => some .a400
+  | "a800" => some .a800
+  | "other" => some .other
+  | _ => none
+
+def parseLayout (s : String) : Option LayoutName :=
+  if s.startsWith "L:" then LayoutName.ofName (s.drop 2).toString else none
+
+def parseTsList (s : String) : Option (List (Nat × Nat)) :=
+  if s == "-" then some [] else
+  (s.splitOn ",").mapM fun item =>
+    match item.splitOn "." with
+    | [a, b] => do pure ((← a.toNat?), (← b.toNat?))
+    | _ => none
+
+/-- physical sector (cyl, 0, sec) of a 35x16 DO image that holds flat range `(o, len)` -/
+def doPhys (p : Nat × Nat) : Out (List Nat) :=
+  let cands := (List.range 35).flatMap fun c => (List.range 16).map fun s => (c, s)
+  match cands.find? (fun (c, s) => match doSectorOffset 35 16 c 0 s with
+      | ok base => base ≤ p.1 ∧ p.1 + p.2 ≤ base + 256
+      | _ => false) with
+  | some (c, s) => match doSectorOffset 35 16 c 0 s with
+      | ok base => ok [c, 0, s, p.1 - base, p.2]
+      | _ => .panic
+  | none => .panic
+
+def d13Phys (p : Nat × Nat) : Out (List Nat) :=
+  let cands := (List.range 35).flatMap fun c => (List.range 13).map fun s => (c, s)
+  match cands.find? (fun (c, s) => match d13SectorOffset 35 c 0 s with
+      | ok base => base ≤ p.1 ∧ p.1 + p.2 ≤ base + 256
+      | _ => false) with
+  | some (c, s) => match d13SectorOffset 35 c 0 s with
+      | ok base => ok [c, 0, s, p.1 - base, p.2]
+      | _ => .panic
+  | none => .panic
+
+/-- the observation cannot see piece boundaries inside one sector: merge neighbours `c.h.s.off.len`
+that continue each other in the same sector (both sides of the comparison do this) -/
+def mergePieces : List (List Nat) → List (List Nat)
+  | [c1, h1, s1, o1, l1] :: [c2, h2, s2, o2, l2] :: rest =>
+    if c1 = c2 ∧ h1 = h2 ∧ s1 = s2 ∧ o1 + l1 = o2 then mergePieces ([c1, h1, s1, o1, l1 + l2] :: rest)
+    else [c1, h1, s1, o1, l1] :: mergePieces ([c2, h2, s2, o2, l2] :: rest)
+  | xs => xs
+termination_by xs => xs.length
+
+/-- flat pieces `(off, len)`: merge neighbours that continue each other inside one `q`-byte sector/block -/
+def mergeFlat (q : Nat) : List (Nat × Nat) → List (Nat × Nat)
+  | (o1, l1) :: (o2, l2) :: rest =>
+    if o1 + l1 = o2 ∧ o1 / q = o2 / q then mergeFlat q ((o1, l1 + l2) :: rest)
+    else (o1, l1) :: mergeFlat q ((o2, l2) :: rest)
+  | xs => xs
+termination_by xs => xs.length
+
+def numTracks : AKind → Nat
+  | .a400 => 80
+  | .a800 => 160
+  | _ => 35
+
+/-- (cyl, head) under which `read_sector` reaches nibble track `t` -/
+def nibPhys (kind : AKind) (len : Nat) (p : Nat × Nat) : Out (List Nat) :=
+  let cands := (List.range 80).flatMap fun c => [(c, 0), (c, 1)]
+  match cands.find? (fun (c, h) => wozSector (numTracks kind) kind c h p.2 = ok (p.1, p.2)) with
+  | some (c, h) => ok [c, h, p.2, 0, len]
+  | none => .panic
+
+def ibmOf : String → Option Ibm
+  | "img" => some .img
+  | "imd" => some .imd
+  | "td0" => some .td0
+  | _ => none
+
+def handle (toks : List String) : String :=
+  match toks with
+  | "lsecs" :: spt :: blk =>
+    match spt.toNat?, parseBlock blk with
+    | some spt, some b => render pairs (getLsecs b spt)
+    | _, _ => "bad-request"
+  | ["tsprodos", kind, b] =>
+    match parseAKind kind, b.toNat? with
+    | some k, some b => render pairs (tsFromProdosBlock b k)
+    | _, _ => "bad-request"
+  | ["blkfromts", t, s] =>
+    match t.toNat?, s.toNat? with
+    | some t, some s => render (fun (p : Nat × Nat) => dots [p.1, p.2]) (prodosBlockFromTs t s)
+    | _, _ => "bad-request"
+  | ["cpmblk", ssh, heads, ts] =>
+    match ssh.toNat?, heads.toNat?, parseTsList ts with
+    | some ssh, some heads, some ts => render triples (cpmBlocking ts ssh heads)
+    | _, _, _ => "bad-request"
+  | ["fatblk", heads, ts] =>
+    match heads.toNat?, parseTsList ts with
+    | some heads, some ts => render triples (fatBlocking ts heads)
+    | _, _ => "bad-request"
+  | "flat" :: fmt :: blk =>
+    match parseBlock blk with
+    | none => "bad-request"
+    | some b =>
+      match fmt with
+      | "do" => render (fun ps => pairs (mergeFlat 256 ps)) (doPieces 35 16 .dos33 b)
+      | "po280" => render pairs (poPieces 280 b)
+      | "po800" => render pairs (poPieces 800 b)
+      | "po1600" => render pairs (poPieces 1600 b)
+      | "d13" => render pairs (d13Pieces 35 b)
+      | _ => "bad-request"
+  | "pieces" :: fmt :: kind :: blk =>
+    match parseBlock blk with
+    | none => "bad-request"
+    | some b =>
+      let rl := fun (xs : List (List Nat)) => commas ((mergePieces xs).map dots)
+      match fmt with
+      | "do" => render rl (doPieces 35 16 .dos33 b >>= Out.mapM' doPhys)
+      | "d13" => render rl (d13Pieces 35 b >>= Out.mapM' d13Phys)
+      | "nib" =>
+        match parseAKind kind with
+        | some k => render rl (do
+            let (ts, len) ← wozPieces (numTracks k) k b
+            Out.mapM' (nibPhys k len) ts)
+        | none => "bad-request"
+      | f =>
+        match ibmOf f, parseLayout kind with
+        | some c, some ln => render (fun ps => commas (ps.map fun (p : Nat × Nat × Nat × Nat) => dots [p.1, p.2.1, p.2.2.1, 0, p.2.2.2]))
+            (ibmPieces c ln b)
+        | _, _ => "bad-request"
+  | ["sector", fmt, kind, c, h, s] =>
+    match c.toNat?, h.toNat?, s.toNat? with
+    | some c, some h, some s =>
+      match fmt with
+      | "do" => render (fun o => dots [o, 256]) (doSectorOffset 35 16 c h s)
+      | "d13" => render (fun o => dots [o, 256]) (d13SectorOffset 35 c h s)
+      | "nib" =>
+        match parseAKind kind with
+        | some k => render (fun (p : Nat × Nat) => dots [p.1, p.2]) (wozSector (numTracks k) k c h s)
+        | none => "bad-request"
+      | "img" =>
+        match parseLayout kind with
+        | some ln => render (fun (p : Nat × Nat) => dots [p.1, p.2]) (imgSector ln c h s)
+        | none => "bad-request"
+      | f =>
+        match ibmOf f, parseLayout kind with
+        | some cc, some ln => render toString (ibmSector cc ln c h s)
+        | _, _ => "bad-request"
+    | _, _, _ => "bad-request"
+  | _ => "bad-request"
 
 end A2Verif.Drv.C07
